@@ -133,19 +133,24 @@ inline Outcome check_input(const std::string &in) {
     o.ref = r.v;
     // ambient state the parser must not depend on: the caller's errno (a previous conversion may have left ERANGE there)
     bool has_digit = in.find_first_of("0123456789") != std::string::npos;
-    for (int pa = 0; pa < 4; pa++) {
-        int pres = pa & 1, ambient = (pa & 2) || !has_digit ? ERANGE : 0;
-        if ((pa & 2) && !has_digit) continue;
-        // 0: NUL-terminated (exact strlen+1 block), 1: length-delimited, exact-size block without terminator
+    for (int pa = 0; pa < 6; pa++) {
+        int pres = pa % 3, ambient = (pa >= 3) || !has_digit ? ERANGE : 0;
+        if (pa >= 3 && !has_digit) continue;
+        // 0: NUL-terminated (exact strlen+1 block), 1: length-delimited, exact-size block without terminator,
+        // 2: sx_parse() from a start index: the input sits behind three octets "((x" that the reader has no business looking at
         if (pres == 0 && memchr(in.data(), 0, in.size())) continue;
-        size_t blk = pres == 0 ? in.size() + 1 : (in.size() ? in.size() : 1);
+        const size_t pre = pres == 2 ? 3 : 0;
+        size_t blk = pres == 0 ? in.size() + 1 : (pre + in.size() ? pre + in.size() : 1);
         char *mem = (char *)malloc(blk);
-        memcpy(mem, in.data(), in.size());
+        if (pre) memcpy(mem, "((x", pre);
+        memcpy(mem + pre, in.data(), in.size());
         if (pres == 0) mem[in.size()] = 0;
         long live0 = ledger().live;
         errno = ambient;
-        struct sx_parse_result res = pres == 0 ? sx_parse_string(mem) : sx_parse_stringn(mem, in.size());
-        const char *P = pres == 0 ? (ambient && has_digit ? "string:errno-preset:" : "string:") : (ambient && has_digit ? "stringn:errno-preset:" : "stringn:");
+        struct sx_parse_result res = pres == 0 ? sx_parse_string(mem) : pres == 1 ? sx_parse_stringn(mem, in.size()) : sx_parse(mem, pre + in.size(), pre);
+        if (pres == 2 && res.position >= pre) res.position -= pre; else if (pres == 2 && (res.status == SXS_SUCCESS)) res.position = (size_t)-1;
+        static const char *PN[3][2] = {{"string:", "string:errno-preset:"}, {"stringn:", "stringn:errno-preset:"}, {"parse-from-index:", "parse-from-index:errno-preset:"}};
+        const char *P = PN[pres][ambient && has_digit ? 1 : 0];
         std::string key, msg;
         if (r.v == ACCEPT) {
             if (res.status != SXS_SUCCESS || !res.node) { key = "accept-refused"; msg = vp::fmt("status %d for a complete expression", (int)res.status); }
